@@ -66,6 +66,11 @@ impl ProofVerifier for VerifiableEncryptionVerifier<'_, '_> {
     }
 
     fn verify(&self, challenge: Scalar) -> CredxResult<()> {
+        if self.statement.allow_message_decryption && self.proof.decryptable_scalar_proof.is_none() {
+            return Err(Error::General(
+                "The statement requests a decryptable scalar but the proof does not contain one",
+            ));
+        }
         if let Some(decryptable_proof) = self.proof.decryptable_scalar_proof.as_ref() {
             let bp_gens = BulletproofGens::new(8, decryptable_proof.byte_proofs.len());
             let pedersen_gen = PedersenGens {
